@@ -650,6 +650,10 @@ def system_part(ck):
                "n_particles": [8, 16, 9], "sample": ["tpcn", "rwm"], "clustering": [True, False], "target": ["gauss", "bimodal", "edge"]}
     jobs = sysrun.product_jobs(factors, {}, ck.seed + 5, limit=40 if ck.tier == "quick" else 288, n_total=40)
 
+    # synthetic histories whose ESS-limited temperature falls inside (1 - 1e-4, 1)
+    for i, c in enumerate([dict(clustering=False), dict(clustering=True, sample="rwm"), dict(volume_variation=5.0, clustering=False)]):
+        jobs.append({"conf": dict(c, n_particles=8), "seed": 550 + i + ck.seed, "label": f"late-crossing#{i}", "n_total": 24, "oracle": "late_crossing"})
+
     def nontrivial(t):
         adv = sum(1 for a, b in zip([e for e in t["events"] if e["ev"] == "Reweight"][:-1], [e for e in t["events"] if e["ev"] == "Reweight"][1:]) if b["beta"] > a["beta"])
         return (t["meta"]["label"], t["meta"]["seed"]) if adv >= 2 else None
